@@ -281,6 +281,17 @@ func grid(prop string, thorough bool) []Job {
 	}
 	switch prop {
 	case "C05", "C06":
+		for _, pacing := range []string{"first", "lock"} {
+			for _, fin := range []string{"eof", "silent"} {
+				for _, mode := range []string{"ok", "yield"} {
+					sc := base(fmt.Sprintf("H5/%s/undecodable-before-image/%s/%s", pacing, fin, mode), "H5", pacing)
+					a := att(simmaster.Plan{At: -1, Final: fin})
+					a.HandlerMode = mode
+					sc.Attempts = []e1.Attempt{a}
+					jobs = append(jobs, Job{Sc: sc, Bound: 2})
+				}
+			}
+		}
 		if thorough {
 			addAll(stopScenarios("H1T", true), 2)
 			addAll(stopScenarios("H2", true), 2)
